@@ -214,10 +214,7 @@ func (a *sparseArrayObject) setOwnStr(name unistring.String, val Value, throw bo
 				return false
 			}
 			l := a.val.runtime.toLengthUint32(val)
-			if cur := curStdArray(a.val, a); cur != nil {
-				return cur.setOwnStr(name, intToValue(int64(l)), throw)
-			}
-			return a.setLength(l, throw)
+			return setConvertedArrayLength(a.val, l, throw)
 		} else {
 			return a.baseObject.setOwnStr(name, val, throw)
 		}
